@@ -164,6 +164,16 @@ def chunksAux (n : Nat) : Nat → Bytes → List Bytes
 
 def chunks (n : Nat) (b : Bytes) : List Bytes := chunksAux n b.length b
 
+/-- how the data connection ends, as the client's reads see it -/
+inductive DataEnd
+  /-- orderly close by the server: `read` returns `b''` -/
+  | closed
+  /-- never closed: `read` blocks (a timeout in reality) -/
+  | stillOpen
+  /-- connection reset / any socket error: `read` raises, `Connection.read` turns it into `NetworkError` -/
+  | reset
+  deriving DecidableEq, Repr
+
 inductive TransferResult where
   /-- body written to the file, closing reply -/
   | complete (body : Bytes) (reply : Reply)
@@ -174,9 +184,11 @@ inductive TransferResult where
 
 /-- `Commander.read_stream`: read the data connection to EOF, *then* read the
 closing reply on the control connection and require code 226. -/
-def readStream (dataSegs : List Bytes) (dataEof : Bool) (fuel : Nat) (ctrl : List Bytes) : TransferResult :=
-  if !dataEof then .stalled
-  else
+def readStream (dataSegs : List Bytes) (dataEnd : DataEnd) (fuel : Nat) (ctrl : List Bytes) : TransferResult :=
+  match dataEnd with
+  | .stillOpen => .stalled
+  | .reset => .err .NetworkError
+  | .closed =>
     let body := (dataSegs.flatMap (chunks 4096)).flatten
     match readReplySegs fuel ctrl with
     | .err e => .err e
